@@ -65,6 +65,13 @@ func drawMalformations(rt *rapid.T, g *dagSpec) []malform {
 			m.Template = rapid.OneOf(rapid.IntRange(0, len(g.Dirs)-1), rapid.IntRange(0, max(0, len(g.Dirs)-2))).Draw(rt, "template")
 			m.Entry = rapid.IntRange(0, 5).Draw(rt, "entry")
 			m.Variant = rapid.IntRange(0, 59).Draw(rt, "variant")
+			if m.Kind == "duplicate" && rapid.IntRange(0, 9).Draw(rt, "duplicateOfSameKind") < 5 {
+				// Half of the duplicates repeat the kind of the entry
+				// they duplicate (variants >= 30); among the entries,
+				// directories come after the files.
+				m.Variant = 30 + m.Variant%30
+				m.Entry = rapid.SampledFrom([]int{0, 1, 2, 3, 4, 5, 3, 4, 5}).Draw(rt, "entryLate")
+			}
 		}
 		out = append(out, m)
 	}
@@ -120,11 +127,32 @@ func applyMessageMalformation(msg *remoteexecution.Directory, m malform) {
 		} else {
 			name = *nameOf(m.Entry % total)
 		}
-		switch m.Variant % 3 {
+		kind := m.Variant % 3
+		dirDigest := emptyFile
+		if total > 0 && m.Variant >= 30 {
+			if i := m.Entry%total - len(msg.Files); i >= 0 && i < len(msg.Directories) {
+				// A second directory of that name with contents that can
+				// be fetched: those of the next sibling directory (or its
+				// own), so that a merge of the two would go through.
+				dirDigest = msg.Directories[(i+1)%len(msg.Directories)].Digest
+			}
+			// The second entry is of the same kind as the one it
+			// duplicates (two directories of one name whose contents do
+			// not clash could be merged silently).
+			switch i := m.Entry % total; {
+			case i < len(msg.Files):
+				kind = 0
+			case i < len(msg.Files)+len(msg.Directories):
+				kind = 1
+			default:
+				kind = 2
+			}
+		}
+		switch kind {
 		case 0:
 			msg.Files = append(msg.Files, &remoteexecution.FileNode{Name: name, Digest: emptyFile, IsExecutable: true})
 		case 1:
-			msg.Directories = append(msg.Directories, &remoteexecution.DirectoryNode{Name: name, Digest: emptyFile})
+			msg.Directories = append(msg.Directories, &remoteexecution.DirectoryNode{Name: name, Digest: dirDigest})
 		default:
 			msg.Symlinks = append(msg.Symlinks, &remoteexecution.SymlinkNode{Name: name, Target: "elsewhere"})
 		}
